@@ -18,6 +18,16 @@
 // Tolerance is measured, not guessed: the resolver observed the referral no later
 // than the end of the client query during which the parent served it, minus the
 // delays the script itself injected after serving it.
+//
+// The long-lease family (Scenario.Long; LeasePipe.tla with RealTime = FALSE): referral
+// TTLs of 6 h / 1 d / 2 d against the 12 h ceiling the statement puts on every lease
+// ("the smaller of the referral's NS and DS TTLs, further limited by every shallower
+// delegation on the path and a 12 h ceiling - measured from the moment the referral
+// was observed").  Hours pass by a VIRTUAL clock: a "jump" step moves every timestamp
+// the answer cache and the delegation cache hold at rest into the past (overlay
+// shifters, tag c08p) while nothing is in flight; every instant the oracle uses is
+// taken from the same virtual clock (real time + the jumps so far).  The oracle is
+// the same one, with the lease a referral grants read as min(TTL, 12 h).
 package c08pipe
 
 import (
@@ -33,6 +43,9 @@ import (
 
 	"github.com/miekg/dns"
 	"github.com/semihalev/sdns/config"
+	"github.com/semihalev/sdns/middleware"
+	"github.com/semihalev/sdns/middleware/cache"
+	"github.com/semihalev/sdns/middleware/resolver"
 	"github.com/semihalev/sdns/verifharness/authkit"
 	"github.com/semihalev/sdns/verifharness/pipe"
 	"github.com/semihalev/sdns/verifharness/vh"
@@ -40,11 +53,15 @@ import (
 
 type Step struct {
 	At    int    `json:"at"`    // ms after scenario start
-	Op    string `json:"op"`    // query | hot | withdraw | repoint | withdrawP | repointP
+	Op    string `json:"op"`    // query | hot | withdraw | repoint | withdrawP | repointP | jump
 	Until int    `json:"until"` // hot: keep querying until (ms)
 	Every int    `json:"every"` // hot: period (ms)
 	Exp   string `json:"exp"`   // model prediction: "p.c" version pair | "nx" | "any"
+	D     int    `json:"d"`     // jump: seconds the virtual clock advances
 }
+
+// ceilingSec is the ceiling the STATEMENT puts on every lease (12 h); deliberately not read from the code.
+const ceilingSec = 12 * 3600
 
 type Scenario struct {
 	ID         string `json:"id"`
@@ -62,6 +79,8 @@ type Scenario struct {
 	// message-born; Prefetch: the cache's background refresh threshold in percent (0 = off)
 	Wire     bool   `json:"wire"`
 	Prefetch uint32 `json:"prefetch"`
+	// Long: the long-lease family -- the clock moves by "jump" steps only (virtual clock)
+	Long bool `json:"long"`
 }
 
 type Input struct {
@@ -104,6 +123,33 @@ type world struct {
 	pch     []change      // changes of edge p (at the root)
 	cch     map[int][]change
 	qname   string
+	// virtual clock: real time + the jumps so far
+	off time.Duration
+	ch  *cache.Cache
+	rh  *resolver.DNSHandler
+}
+
+// buildMu: the middleware registry is process-global; the handlers of the server just built are
+// looked up before another worker builds the next one.
+var buildMu sync.Mutex
+
+// vnow is the scenario's clock: every instant the oracle compares comes from here.
+func (w *world) vnow() time.Time {
+	w.mu.Lock()
+	defer w.mu.Unlock()
+	return time.Now().Add(w.off)
+}
+
+// jump lets sec seconds pass for everything the pipeline holds at rest (answer cache entries, subtree
+// cuts, denial proofs, delegations).  Called between two steps, with no client query in flight.
+func (w *world) jump(sec int) (int, int) {
+	d := time.Duration(sec) * time.Second
+	na := w.ch.VerifC08pShift(d)
+	nd := w.rh.VerifC08pShift(d)
+	w.mu.Lock()
+	w.off += d
+	w.mu.Unlock()
+	return na, nd
 }
 
 func dataIP(pv, cv int) net.IP { return net.IPv4(10, byte(pv), byte(cv), 1) }
@@ -143,14 +189,14 @@ func (w *world) parentHook(edge string) func(*authkit.Exchange) {
 				if a, ok := rr.(*dns.A); ok {
 					w.mu.Lock()
 					if v, ok := w.glueVer[a.A.String()]; ok {
-						w.refs = append(w.refs, refEvent{At: time.Now().Add(d), Edge: edge, PV: v[0], CV: v[1]})
+						w.refs = append(w.refs, refEvent{At: time.Now().Add(w.off).Add(d), Edge: edge, PV: v[0], CV: v[1]}) // w.mu held: vnow() inline
 					}
 					w.mu.Unlock()
 				}
 			}
 		}
 		if d > 0 {
-			w.delays.Add(time.Now(), d, ex.Q)
+			w.delays.Add(w.vnow(), d, ex.Q)
 			ex.Delay = d
 		}
 	}
@@ -267,7 +313,7 @@ func build(sc *Scenario) (*world, error) {
 				if _, dup := seen.LoadOrStore(strings.ToLower(ex.Q.Name), true); dup {
 					return
 				}
-				w.delays.Add(time.Now(), d, ex.Q)
+				w.delays.Add(w.vnow(), d, ex.Q)
 				ex.Delay = d
 			})
 		}
@@ -282,22 +328,22 @@ func build(sc *Scenario) (*world, error) {
 }
 
 func (w *world) apply(op string) error {
-	before := time.Now()
+	before := w.vnow()
 	var err error
 	switch op {
 	case "withdraw":
 		w.pz.Undelegate("c.p.")
-		w.cch[w.pv] = append(w.cch[w.pv], change{Before: before, After: time.Now(), Ver: 0})
+		w.cch[w.pv] = append(w.cch[w.pv], change{Before: before, After: w.vnow(), Ver: 0})
 		w.cv = 0
 		return nil
 	case "repoint":
 		nv := w.maxCV() + 1
 		err = w.newChild(w.pz, w.pv, nv, false)
-		w.cch[w.pv] = append(w.cch[w.pv], change{Before: before, After: time.Now(), Ver: nv})
+		w.cch[w.pv] = append(w.cch[w.pv], change{Before: before, After: w.vnow(), Ver: nv})
 		w.cv = nv
 	case "withdrawP":
 		w.n.Root.Undelegate("p.")
-		w.pch = append(w.pch, change{Before: before, After: time.Now(), Ver: 0})
+		w.pch = append(w.pch, change{Before: before, After: w.vnow(), Ver: 0})
 		w.pv = 0
 	case "repointP":
 		nv := w.maxPV() + 1
@@ -306,7 +352,7 @@ func (w *world) apply(op string) error {
 			err = w.newChild(z, nv, 1, false)
 			w.pz = z
 		}
-		w.pch = append(w.pch, change{Before: before, After: time.Now(), Ver: nv})
+		w.pch = append(w.pch, change{Before: before, After: w.vnow(), Ver: nv})
 		w.pv, w.cv = nv, 1
 	default:
 		err = fmt.Errorf("unknown op %q", op)
@@ -349,7 +395,7 @@ func (w *world) query(ask func(*dns.Msg) *dns.Msg, exp string, hot bool) queryRe
 	q := new(dns.Msg)
 	q.SetQuestion(w.qname, dns.TypeA)
 	q.SetEdns0(1232, false)
-	rec := queryRec{Start: time.Now(), Exp: exp, Hot: hot}
+	rec := queryRec{Start: w.vnow(), Exp: exp, Hot: hot}
 	ch := make(chan *dns.Msg, 1)
 	go func() { ch <- ask(q) }()
 	var m *dns.Msg
@@ -357,7 +403,7 @@ func (w *world) query(ask func(*dns.Msg) *dns.Msg, exp string, hot bool) queryRe
 	case m = <-ch:
 	case <-time.After(12 * time.Second):
 	}
-	rec.End = time.Now()
+	rec.End = w.vnow()
 	if m == nil {
 		rec.Rcode = "NONE"
 		return rec
@@ -394,6 +440,13 @@ func (w *world) judge(t0 time.Time, qs []queryRec) (verdicts []verdict, ghosts [
 		if w.sc.PDS < pTTL {
 			pTTL = w.sc.PDS
 		}
+	}
+	// "... and a 12 h ceiling - measured from the moment the referral was observed"
+	if cTTL > ceilingSec {
+		cTTL = ceilingSec
+	}
+	if pTTL > ceilingSec {
+		pTTL = ceilingSec
 	}
 	w.mu.Lock()
 	refs := append([]refEvent(nil), w.refs...)
@@ -490,6 +543,7 @@ func runScenario(t *testing.T, sc *Scenario, res *vh.Result, det *[]map[string]a
 	if sc.Signed {
 		keys = []string{w.n.Root.Keys[0].RR.String()}
 	}
+	buildMu.Lock()
 	s, _ := pipe.NewResolverServer(pipe.ResolverOpts{RootAddr: w.n.RootSrv.Addr, RootKeys: keys, DNSSEC: sc.Signed, Dir: dir, Mapper: w.n.Mapper(),
 		Mutate: func(cfg *config.Config) {
 			cfg.RecursionFirewall.Mode = config.RecursionFirewallModeOff
@@ -498,6 +552,13 @@ func runScenario(t *testing.T, sc *Scenario, res *vh.Result, det *[]map[string]a
 			cfg.QueryTimeout.Duration = 6 * time.Second
 			cfg.Prefetch = sc.Prefetch
 		}})
+	w.ch, _ = middleware.Get("cache").(*cache.Cache)
+	w.rh, _ = middleware.Get("resolver").(*resolver.DNSHandler)
+	buildMu.Unlock()
+	if w.ch == nil || w.rh == nil {
+		res.Skip("%s: cache / resolver handlers not found in the registry", sc.ID)
+		return
+	}
 	// let priming / trust-anchor refresh finish so it does not interleave with the script
 	time.Sleep(400 * time.Millisecond)
 	ask := func(q *dns.Msg) *dns.Msg {
@@ -508,6 +569,8 @@ func runScenario(t *testing.T, sc *Scenario, res *vh.Result, det *[]map[string]a
 	}
 	t0 := time.Now()
 	var qs []queryRec
+	jumped, afterJump := 0, 0
+	storedC := map[int]string{} // long-lease family: what the delegation cache held for c.p. when query i started
 	sleepUntil := func(at int) {
 		d := time.Until(t0.Add(time.Duration(at) * time.Millisecond))
 		if d > 0 {
@@ -518,7 +581,22 @@ func runScenario(t *testing.T, sc *Scenario, res *vh.Result, det *[]map[string]a
 		sleepUntil(st.At)
 		switch st.Op {
 		case "query":
+			if sc.Long {
+				if t, ok := w.rh.VerifC08pLease("c.p."); ok {
+					storedC[len(qs)] = fmt.Sprintf("; the delegation cache's own entry for c.p. ended at %.2f h", float64(t.Add(w.off).Sub(t0).Milliseconds())/3.6e6)
+				}
+			}
 			qs = append(qs, w.query(ask, st.Exp, false))
+			if jumped > 0 {
+				afterJump++
+			}
+		case "jump":
+			// nothing is in flight: the previous step has returned, prefetch and IPv6 lookups are off
+			na, nd := w.jump(st.D)
+			jumped += st.D
+			res.Count("jumps", 1)
+			res.Count("jump_shifted_answers", na)
+			res.Count("jump_shifted_delegations", nd)
 		case "hot":
 			every := st.Every
 			if every <= 0 {
@@ -542,6 +620,13 @@ func runScenario(t *testing.T, sc *Scenario, res *vh.Result, det *[]map[string]a
 		res.Count("reply_"+v.Class, 1)
 	}
 	res.Count("queries", len(qs))
+	if sc.Long {
+		res.Count("long_scenarios", 1)
+		res.Count("long_queries_after_jump", afterJump)
+		for _, v := range verdicts {
+			res.Count("long_reply_"+v.Class, 1)
+		}
+	}
 	res.Count("referrals_logged", len(w.refs))
 	sig := fmt.Sprintf("%s:%v", sc.ID, classes)
 	res.Case(sig)
@@ -566,13 +651,38 @@ func runScenario(t *testing.T, sc *Scenario, res *vh.Result, det *[]map[string]a
 	dmu.Unlock()
 	if len(ghosts) > 0 {
 		g := ghosts[0]
-		res.Violate("ghost/"+sc.ID, fmt.Sprintf("FollowsParent: reply %q to a query started at %.0f ms carries data of a delegation the parent had withdrawn/re-pointed; "+
-			"the lease granted by the parent (min NS/DS TTL, shallower cut, measured observation latency) ended at %.0f ms (%.0f ms earlier); "+
+		long, key := "", "ghost/"+sc.ID
+		if sc.Long {
+			// a ghost in a hierarchy whose every referral TTL exceeds the ceiling is ONE finding whatever the
+			// scenario's number: a key that does not depend on the seed
+			raw := sc.PNS
+			for _, t := range []uint32{sc.CNS, sc.PDS, sc.CDS} {
+				if t < raw && (sc.Signed || t == sc.CNS) {
+					raw = t
+				}
+			}
+			if raw > ceilingSec {
+				key = fmt.Sprintf("ghost/lease-ceiling/signed=%v", sc.Signed)
+			}
+			// virtual clock: say it in hours, and show what the delegation cache itself still holds
+			long = fmt.Sprintf(" [long-lease family, virtual clock: the query started %.2f h after the scenario began, the lease had ended at %.2f h", g.StartMs/3.6e6, g.LeaseMs/3.6e6)
+			long += storedC[g.Index] + "]"
+		}
+		res.Violate(key, long2(long)+fmt.Sprintf("FollowsParent: reply %q to a query started at %.0f ms carries data of a delegation the parent had withdrawn/re-pointed; "+
+			"the lease granted by the parent (min NS/DS TTL under the 12 h ceiling, shallower cut, measured observation latency) ended at %.0f ms (%.0f ms earlier); "+
 			"scenario %s child=%s childTTL=%d signed=%v deep=%v cNS=%d cDS=%d pNS=%d pDS=%d valDelay=%dms",
 			g.Reply, g.StartMs, g.LeaseMs, g.OverMs, sc.ID, sc.Child, sc.ChildTTL, sc.Signed, sc.Deep, sc.CNS, sc.CDS, sc.PNS, sc.PDS, sc.ValDelayMs),
 			map[string]any{"scenario": sc, "verdicts": verdicts})
 	}
 	res.Sample(out)
+}
+
+// long2 puts the long-lease note (if any) in front of the common text.
+func long2(note string) string {
+	if note == "" {
+		return ""
+	}
+	return strings.TrimSpace(note) + " "
 }
 
 func TestLeasePipeline(t *testing.T) {
